@@ -183,6 +183,9 @@ func SendSpawned[T any](ch chan<- T, v T) {
 		}
 		s.yield(func() bool { return len(c.buf) < c.cap })
 		c.buf = append(c.buf, v)
+		// the receiver may take the value (and act on it) before the sender's
+		// next statement runs
+		s.yield(nil)
 		return
 	}
 	p := epoch.Load()
